@@ -482,6 +482,48 @@ func runC06(seed int64, n int, dir string, _ []string) {
 			}
 		}
 
+		// ---- classification of ASCII strings: the model's own ParseInt / ParseBool against the real conversions ----
+		{
+			var sb strings.Builder
+			for k := g.Intn(4); k > 0; k-- {
+				sb.WriteString(g.Pick(" ", "\t", "\n", "\r", "\v", "\f"))
+			}
+			sb.WriteString(g.Pick("", "", "+", "-", "--", "+-"))
+			switch g.Intn(6) {
+			case 0:
+				sb.WriteString(fmt.Sprint(g.Int64()))
+			case 1:
+				sb.WriteString(g.Pick("9223372036854775807", "9223372036854775808", "9223372036854775809", "18446744073709551616", "00000000000000000000000012", "0", "00", "007"))
+			case 2:
+				sb.WriteString(g.Pick("1", "0", "t", "f", "T", "F", "true", "false", "TRUE", "FALSE", "True", "False", "tRUE", "yes", "on", "1 1"))
+			case 3:
+				sb.WriteString(g.Pick("1_000", "0x10", "1e3", "1.0", "12a", "a12", "1 2", "٣", ""))
+			default:
+				sb.WriteString(strconv.Itoa(g.Intn(100000)))
+			}
+			for k := g.Intn(3); k > 0; k-- {
+				sb.WriteString(g.Pick(" ", "\t", "\n", "\r"))
+			}
+			str := sb.String()
+			ascii := true
+			for i := 0; i < len(str); i++ {
+				if str[i] >= 0x80 {
+					ascii = false
+				}
+			}
+			if ascii {
+				sv := value.NewString(str)
+				iv := "-"
+				if in := value.ToIntegerStrictly(sv); !value.IsNull(in) {
+					iv = fmt.Sprint(in.(*value.Integer).Raw())
+				}
+				o.Case("c06.sint x"+hc.Hex(str), iv+" "+hc.EncT(sv.Ternary()))
+				o.NonTrivial("sint:" + iv[:1] + hc.EncT(sv.Ternary()))
+			}
+			n64 := g.Int64()
+			o.Case(fmt.Sprintf("c06.itext %d", n64), hc.Hex(value.Int64ToStr(n64)))
+		}
+
 		// ---- profile of non-strings derived by the model ----
 		if _, isStr := a.(*value.String); !isStr {
 			o.Case("c06.prof "+hc.EncVal(a), hc.EncFullProfile(a))
